@@ -1,22 +1,34 @@
-"""Interval abstract interpretation of integer locals over the built MIR of a loop-free function.
+"""Interval abstract interpretation of integer locals over the built MIR of one function.
 
-Forward dataflow over the non-cleanup CFG in topological order (a back edge is `Unsupported`: the caller fails closed).
 Abstract value of an integer place: an inclusive interval [lo, hi] (unbounded Python ints). Three relational facts are kept
 next to the intervals, because decimal-digit code depends on them:
-  * copies: `_t = copy n` makes _t an alias of n until n is assigned again (branch refinements on _t refine n);
+  * copies: `_t = copy n` makes _t an alias of n until either is assigned again (branch refinements on _t refine n);
   * q = n / C  and  m = C * q  are remembered symbolically, so that  n - m  is known to be  n mod C  (< C);
   * a bool local holding a comparison is remembered, and the two edges of a switch on it refine the operands.
+Every symbolic fact about a place is dropped when that place is assigned.
+
 Checked arithmetic (`AddWithOverflow` + assert) is evaluated on the path where the assert passed (result within the type's
 range); unchecked arithmetic whose exact result may leave the type's range goes to the full range of the type (wrap-around).
 Locals whose address is taken mutably are always the full range of their type. Calls: `{integer}::pow` of exact arguments is
-evaluated; every other call result is the full range of its type. Nothing is executed."""
+evaluated; every other call result is the full range of its type.
+
+Loops: the analysis is a worklist over (block, partition key). The partition key is the tuple of the exact values of the
+function's *loop counters* (locals stepped by +/-1 inside a natural loop): states with different counter values are kept
+apart (trace partitioning), so a loop driven by such a counter is in effect unrolled and `10^counter` folds to a constant in
+each partition. States with the same key are joined (interval hull; symbolic facts kept when equal); after WIDEN_AFTER
+joins at the same (block, key) every interval that is still growing is widened to the range of its type, which ends every
+ascending chain. More than MAX_PARTS partitions at one block is `Unsupported` (the caller decides what that means).
+Nothing is executed."""
 import re
+from collections import deque
 
 RANGES = {"bool": (0, 1), "u8": (0, 2 ** 8 - 1), "u16": (0, 2 ** 16 - 1), "u32": (0, 2 ** 32 - 1), "u64": (0, 2 ** 64 - 1), "usize": (0, 2 ** 64 - 1),
           "u128": (0, 2 ** 128 - 1), "i8": (-2 ** 7, 2 ** 7 - 1), "i16": (-2 ** 15, 2 ** 15 - 1), "i32": (-2 ** 31, 2 ** 31 - 1), "i64": (-2 ** 63, 2 ** 63 - 1),
           "isize": (-2 ** 63, 2 ** 63 - 1), "i128": (-2 ** 127, 2 ** 127 - 1), "char": (0, 0x10FFFF)}
 CMP = {"Lt", "Le", "Gt", "Ge", "Eq", "Ne"}
 NEG = {"Lt": "Ge", "Le": "Gt", "Gt": "Le", "Ge": "Lt", "Eq": "Ne", "Ne": "Eq"}
+WIDEN_AFTER = 48
+MAX_PARTS = 96
 
 
 class Unsupported(Exception):
@@ -24,82 +36,73 @@ class Unsupported(Exception):
 
 
 class State:
-    __slots__ = ("vals", "sym", "ver", "cmp")
+    __slots__ = ("vals", "sym", "cmp")
 
     def __init__(self):
-        self.vals, self.sym, self.ver, self.cmp = {}, {}, {}, {}
+        self.vals, self.sym, self.cmp = {}, {}, {}
 
     def copy(self):
         s = State()
-        s.vals, s.sym, s.ver, s.cmp = dict(self.vals), dict(self.sym), dict(self.ver), dict(self.cmp)
+        s.vals, s.sym, s.cmp = dict(self.vals), dict(self.sym), dict(self.cmp)
         return s
 
+    def same(self, o):
+        return self.vals == o.vals and self.sym == o.sym and self.cmp == o.cmp
 
-def join(states, tag):
+
+def join(a, b):
     out = State()
-    keys = set()
-    for s in states:
-        keys |= set(s.vals)
-    for k in keys:
-        if all(k in s.vals for s in states):
-            out.vals[k] = (min(s.vals[k][0] for s in states), max(s.vals[k][1] for s in states))
-    vk = set()
-    for s in states:
-        vk |= set(s.ver)
-    for k in vk:
-        vs = {s.ver.get(k, 0) for s in states}
-        out.ver[k] = vs.pop() if len(vs) == 1 else ("j", tag, k)
-    for k in set().union(*[set(s.sym) for s in states]):
-        v = {s.sym.get(k) for s in states}
-        if len(v) == 1 and None not in v:
-            out.sym[k] = v.pop()
-    for k in set().union(*[set(s.cmp) for s in states]):
-        v = {s.cmp.get(k) for s in states}
-        if len(v) == 1 and None not in v:
-            out.cmp[k] = v.pop()
+    for k in a.vals.keys() & b.vals.keys():
+        out.vals[k] = (min(a.vals[k][0], b.vals[k][0]), max(a.vals[k][1], b.vals[k][1]))
+    for k in a.sym.keys() & b.sym.keys():
+        if a.sym[k] == b.sym[k]:
+            out.sym[k] = a.sym[k]
+    for k in a.cmp.keys() & b.cmp.keys():
+        if a.cmp[k] == b.cmp[k]:
+            out.cmp[k] = a.cmp[k]
     return out
 
 
+def _refs(sym_or_cmp):
+    """the place keys a symbolic fact talks about"""
+    if sym_or_cmp[0] in ("copy", "div", "muldiv"):
+        return (sym_or_cmp[1],)
+    return (sym_or_cmp[1], sym_or_cmp[3])          # cmp: (op, ra, ia, rb, ib)
+
+
 class Intervals:
-    def __init__(self, fn):
+    def __init__(self, fn, partition=None):
         self.fn = fn
         self.escaped = set()
         for bi in fn.live_blocks():
             for st in fn.blocks[bi]["st"]:
                 if st["k"] == "=" and st["r"][0] == "ref" and st["r"][1] == "mut" and not st["r"][2][1]:
                     self.escaped.add(st["r"][2][0])
-                if st["k"] == "=" and st["r"][0] in ("addr", "rawptr", "address_of"):
-                    self.escaped.add(st["r"][-1][0] if isinstance(st["r"][-1], list) else None)
-        self.order = self._topo()
-        self.inn = {}
-        self.out_edges = {}
-        self._counter = 0
+        self.partition = sorted(partition) if partition is not None else sorted(self._loop_counters())
+        self.states = {}        # (bb, key) -> State at block entry
+        self.after = {}         # bb -> [State after the statements of bb]
         self._run()
 
     # -- helpers ---------------------------------------------------------------------------------------------------
-    def _topo(self):
+    def _loop_counters(self):
+        from . import bound
         fn = self.fn
-        live = [b for b in fn.live_blocks() if not fn.is_cleanup(b)]
-        liveset = set(live)
-        color, order = {}, []
-        stack = [(0, iter([s for s, _ in fn.succ(0) if s in liveset]))]
-        color[0] = 1
-        while stack:
-            b, it = stack[-1]
-            adv = False
-            for s in it:
-                if color.get(s) == 1:
-                    raise Unsupported("loop (back edge bb%d -> bb%d)" % (b, s))
-                if s not in color:
-                    color[s] = 1
-                    stack.append((s, iter([x for x, _ in fn.succ(s) if x in liveset])))
-                    adv = True
-                    break
-            if not adv:
-                color[b] = 2
-                order.append(b)
-                stack.pop()
-        return list(reversed(order))
+        out = set()
+        try:
+            loops = bound.natural_loops(fn)
+        except Exception:
+            return out
+        for h, body in loops.items():
+            for local, ty in enumerate(fn.locals):
+                if ty not in RANGES or local in self.escaped:
+                    continue
+                try:
+                    steps = bound._step_defs(fn, local, body)
+                except Exception:
+                    steps = []
+                if steps and all(k in ("inc", "dec") for _, k in steps):
+                    out.add(local)
+        return out
 
     def ty_range(self, ty):
         return RANGES.get(ty)
@@ -122,7 +125,7 @@ class Intervals:
         n = 0
         while n < 8:
             s = st.sym.get(key)
-            if s and s[0] == "copy" and st.ver.get(s[1], 0) == s[2]:
+            if s and s[0] == "copy":
                 key = s[1]
                 n += 1
             else:
@@ -150,10 +153,12 @@ class Intervals:
         return None, None
 
     def _assign(self, st, key, iv, ty_rng):
-        self._counter += 1
-        st.ver[key] = self._counter
+        # every symbolic fact about `key` (its own, and those of other places that mention it) ends here
         st.sym.pop(key, None)
         st.cmp.pop(key, None)
+        for d in (st.sym, st.cmp):
+            for k in [k for k, v in d.items() if key in _refs(v)]:
+                del d[k]
         if iv is None:
             iv = ty_rng
         if iv is None:
@@ -167,7 +172,6 @@ class Intervals:
         dst = s["p"]
         key = self.key_of(dst)
         if key is None:
-            # a store through a projection we do not track: forget the base local
             base = dst[0]
             for k in [k for k in st.vals if k == base or (isinstance(k, tuple) and k[0] == base)]:
                 self._assign(st, k, None, None)
@@ -177,22 +181,34 @@ class Intervals:
         kind = r[0]
         if kind == "use":
             iv, sk = self.eval(st, r[1])
+            rk = self.root(st, sk) if sk is not None else None
+            carried = st.cmp.get(sk) if sk is not None else None
             self._assign(st, key, iv, rng)
-            if sk is not None:
-                rk = self.root(st, sk)
-                st.sym[key] = ("copy", rk, st.ver.get(rk, 0))
-                if sk in st.cmp:
-                    st.cmp[key] = st.cmp[sk]
+            if rk is not None and rk != key:
+                st.sym[key] = ("copy", rk)
+            if carried is not None and key not in _refs(carried):
+                st.cmp[key] = carried
         elif kind == "bin":
             op, a, b = r[1], r[2], r[3]
             (ia, ka), (ib, kb) = self.eval(st, a), self.eval(st, b)
             checked = op.endswith("WithOverflow")
             base = op[:-len("WithOverflow")] if checked else op
+            ra = self.root(st, ka) if ka is not None else None
+            rb = self.root(st, kb) if kb is not None else None
             if base in CMP:
-                ra = self.root(st, ka) if ka is not None else None
-                rb = self.root(st, kb) if kb is not None else None
-                self._assign(st, key, (0, 1), rng)
-                st.cmp[key] = (base, ra, st.ver.get(ra, 0) if ra is not None else None, ia, rb, st.ver.get(rb, 0) if rb is not None else None, ib)
+                folded = (0, 1)
+                if ia is not None and ib is not None:
+                    lt, gt = ia[1] < ib[0], ia[0] > ib[1]
+                    le, ge = ia[1] <= ib[0], ia[0] >= ib[1]
+                    eq = ia[0] == ia[1] == ib[0] == ib[1]
+                    t = {"Lt": True if lt else False if ge else None, "Le": True if le else False if gt else None,
+                         "Gt": True if gt else False if le else None, "Ge": True if ge else False if lt else None,
+                         "Eq": True if eq else False if (lt or gt) else None, "Ne": True if (lt or gt) else False if eq else None}[base]
+                    if t is not None:
+                        folded = (1, 1) if t else (0, 0)
+                self._assign(st, key, folded, rng)
+                if key not in (ra, rb):
+                    st.cmp[key] = (base, ra, ia, rb, ib)
                 return
             dkey = (key, 0) if checked and not isinstance(key, tuple) else key
             drng = self.ty_range(self._opty(a, b))
@@ -203,23 +219,21 @@ class Intervals:
                 elif base == "Sub":
                     res = (ia[0] - ib[1], ia[1] - ib[0])
                     # n - C * (n / C)  ==  n mod C
-                    sb = st.sym.get(self.root(st, kb)) if kb is not None else None
-                    ra = self.root(st, ka) if ka is not None else None
-                    if sb and sb[0] == "muldiv" and ra == sb[1] and st.ver.get(ra, 0) == sb[2]:
-                        res = (0, min(sb[3] - 1, ia[1]))
+                    sb = st.sym.get(rb) if rb is not None else None
+                    if sb and sb[0] == "muldiv" and ra == sb[1]:
+                        res = (0, min(sb[2] - 1, ia[1]))
                 elif base == "Mul":
-                    c = [x[0] * y[0] for x in ((ia[0],), (ia[1],)) for y in ((ib[0],), (ib[1],))]
+                    c = [x * y for x in ia for y in ib]
                     res = (min(c), max(c))
-                    for (iv1, k1, iv2, k2) in ((ia, ka, ib, kb), (ib, kb, ia, ka)):
-                        if iv1[0] == iv1[1] and k2 is not None:
-                            s2 = st.sym.get(self.root(st, k2)) or st.sym.get(k2)
-                            if s2 and s2[0] == "div" and s2[3] == iv1[0] and st.ver.get(s2[1], 0) == s2[2]:
-                                sym = ("muldiv", s2[1], s2[2], s2[3])
+                    for (iv1, r2) in ((ia, rb), (ib, ra)):
+                        if iv1[0] == iv1[1] and r2 is not None:
+                            s2 = st.sym.get(r2)
+                            if s2 and s2[0] == "div" and s2[2] == iv1[0]:
+                                sym = ("muldiv", s2[1], s2[2])
                 elif base == "Div" and ib[0] > 0 and ia[0] >= 0:
                     res = (ia[0] // ib[1], ia[1] // ib[0])
-                    if ib[0] == ib[1] and ka is not None:
-                        ra = self.root(st, ka)
-                        sym = ("div", ra, st.ver.get(ra, 0), ib[0])
+                    if ib[0] == ib[1] and ra is not None:
+                        sym = ("div", ra, ib[0])
                 elif base == "Rem" and ib[0] > 0 and ia[0] >= 0:
                     res = (0, min(ia[1], ib[1] - 1))
                 elif base == "BitAnd" and ia[0] >= 0 and ib[0] >= 0:
@@ -232,24 +246,20 @@ class Intervals:
             self._assign(st, dkey, res, drng)
             if checked and not isinstance(key, tuple):
                 self._assign(st, (key, 1), (0, 1), (0, 1))
-            if sym is not None:
+            base_d = dkey[0] if isinstance(dkey, tuple) else dkey
+            if sym is not None and sym[1] != dkey and sym[1] != base_d:
                 st.sym[dkey] = sym
         elif kind == "cast":
             iv, sk = self.eval(st, r[2])
             trg = self.ty_range(r[3])
             if iv is not None and trg is not None and trg[0] <= iv[0] and iv[1] <= trg[1]:
                 self._assign(st, key, iv, trg)
-                if sk is not None:
-                    rk = self.root(st, sk)
-                    s0 = st.sym.get(rk)
-                    if s0 and s0[0] in ("div",):
-                        pass
             else:
                 self._assign(st, key, trg, trg)
         elif kind == "agg" and isinstance(r[1], dict) and r[1].get("k") == "tuple":
+            vals = [self.eval(st, o)[0] for o in r[2]]
             self._assign(st, key, None, None)
-            for i, o in enumerate(r[2]):
-                iv, _ = self.eval(st, o)
+            for i, iv in enumerate(vals):
                 self._assign(st, (key, i), iv, None)
         else:
             self._assign(st, key, None, rng)
@@ -266,11 +276,11 @@ class Intervals:
         return None
 
     def _refine(self, st, cmp, truth):
-        op, ra, va, ia, rb, vb, ib = cmp
+        op, ra, ia, rb, ib = cmp
         if not truth:
             op = NEG[op]
-        cur_a = st.vals.get(ra, ia) if (ra is not None and st.ver.get(ra, 0) == va) else ia
-        cur_b = st.vals.get(rb, ib) if (rb is not None and st.ver.get(rb, 0) == vb) else ib
+        cur_a = st.vals.get(ra, ia) if ra is not None else ia
+        cur_b = st.vals.get(rb, ib) if rb is not None else ib
         if cur_a is None or cur_b is None:
             return True
         a, b = list(cur_a), list(cur_b)
@@ -291,33 +301,86 @@ class Intervals:
                     a[0] += 1
                 if a[1] == b[0]:
                     a[1] -= 1
+            if a[0] == a[1]:
+                if b[0] == a[0]:
+                    b[0] += 1
+                if b[1] == a[0]:
+                    b[1] -= 1
         if a[0] > a[1] or b[0] > b[1]:
             return False        # infeasible edge
-        if ra is not None and st.ver.get(ra, 0) == va and (ra if not isinstance(ra, tuple) else ra[0]) not in self.escaped:
-            st.vals[ra] = (a[0], a[1])
-        if rb is not None and st.ver.get(rb, 0) == vb and (rb if not isinstance(rb, tuple) else rb[0]) not in self.escaped:
-            st.vals[rb] = (b[0], b[1])
+        for r_, v in ((ra, a), (rb, b)):
+            if r_ is not None and (r_ if not isinstance(r_, tuple) else r_[0]) not in self.escaped:
+                st.vals[r_] = (v[0], v[1])
+                # aliases of the refined place see the refinement too
+                for k, s in st.sym.items():
+                    if s[0] == "copy" and s[1] == r_ and k in st.vals:
+                        st.vals[k] = (max(st.vals[k][0], v[0]), min(st.vals[k][1], v[1])) if max(st.vals[k][0], v[0]) <= min(st.vals[k][1], v[1]) else st.vals[k]
         return True
 
+    def _key(self, st):
+        return tuple((k, st.vals[k][0]) for k in self.partition if k in st.vals and st.vals[k][0] == st.vals[k][1])
+
     def _run(self):
+        return self._run_from(State())
+
+    def _run_from(self, entry):
+        """the analysis from a given entry state (a parameter confined to a sub-range)"""
         fn = self.fn
-        preds = {}
-        entry = State()
-        self.inn[0] = entry
-        pending = {0: [entry]}
-        for b in self.order:
-            ins = pending.get(b)
-            if not ins:
-                continue
-            st = ins[0].copy() if len(ins) == 1 else join(ins, b)
-            self.inn[b] = st.copy()
+        visits = {}
+        parts = {}
+        dq = deque()
+
+        def arrive(bb, st):
+            if fn.is_cleanup(bb):
+                return
+            k = (bb, self._key(st))
+            old = self.states.get(k)
+            if old is None:
+                parts[bb] = parts.get(bb, 0) + 1
+                if parts[bb] > MAX_PARTS:
+                    raise Unsupported("more than %d partitions at bb%d" % (MAX_PARTS, bb))
+                self.states[k] = st
+                dq.append(k)
+                return
+            j = join(old, st)
+            if j.same(old):
+                return
+            visits[k] = visits.get(k, 0) + 1
+            if visits[k] > WIDEN_AFTER:
+                for key, iv in list(j.vals.items()):
+                    if old.vals.get(key) != iv:
+                        base = key[0] if isinstance(key, tuple) else key
+                        try:
+                            rng = self.ty_range(fn.locals[base]) if not isinstance(key, tuple) else None
+                        except Exception:
+                            rng = None
+                        if rng is None:
+                            j.vals.pop(key, None)
+                        else:
+                            j.vals[key] = rng
+                if visits[k] > 4 * WIDEN_AFTER:
+                    raise Unsupported("no fixpoint at bb%d" % bb)
+            self.states[k] = j
+            if k not in dq:
+                dq.append(k)
+
+        arrive(0, entry)
+        steps = 0
+        while dq:
+            steps += 1
+            if steps > 400000:
+                raise Unsupported("analysis budget exceeded")
+            k = dq.popleft()
+            b = k[0]
+            st = self.states[k].copy()
             for s in fn.blocks[b]["st"]:
                 self._stmt(st, s)
+            self.after.setdefault(b, {})[k[1]] = st
             t = fn.blocks[b]["t"]
-            self.out_edges[b] = st
-            k = t["k"]
-            if k == "call":
+            kind = t["k"]
+            if kind == "call":
                 dest = t.get("dest")
+                ns = st
                 if dest is not None:
                     key = self.key_of(dest)
                     res = None
@@ -329,26 +392,29 @@ class Intervals:
                             if rr and rr[0] <= v <= rr[1]:
                                 res = (v, v)
                     if key is not None:
-                        st = st.copy()
-                        self._assign(st, key, res, self.place_range(dest))
+                        ns = st.copy()
+                        self._assign(ns, key, res, self.place_range(dest))
                 if t.get("target") is not None:
-                    pending.setdefault(t["target"], []).append(st)
-            elif k == "switch":
+                    arrive(t["target"], ns)
+            elif kind == "switch":
                 d = t["discr"]
                 dk = self.key_of(d[1]) if d[0] in ("c", "m") else None
                 cmp = st.cmp.get(dk) if dk is not None else None
                 groups = {}
                 for s_, lab in fn.succ(b):
                     groups.setdefault(s_, []).append(lab)
-                vals = [int(v) for v, _ in t["targets"]]
                 for s_, labs in groups.items():
                     if fn.is_cleanup(s_):
                         continue
                     ns = st.copy()
                     feasible = True
-                    if t.get("dty") == "bool" and cmp is not None and len(labs) == 1:
+                    if t.get("dty") == "bool" and len(labs) == 1:
                         truth = not (labs[0] == 0)
-                        feasible = self._refine(ns, cmp, truth)
+                        cur = ns.vals.get(dk) if dk is not None else None
+                        if cur is not None and cur[0] == cur[1] and (cur[0] != 0) != truth:
+                            feasible = False
+                        elif cmp is not None:
+                            feasible = self._refine(ns, cmp, truth)
                     elif dk is not None and len(labs) == 1 and labs[0] != "otherwise" and t.get("dty") in RANGES:
                         rk = self.root(ns, dk)
                         cur = ns.vals.get(rk)
@@ -358,26 +424,30 @@ class Intervals:
                             ns.vals[rk] = (labs[0], labs[0])
                             ns.vals[dk] = (labs[0], labs[0])
                     if feasible:
-                        pending.setdefault(s_, []).append(ns)
+                        arrive(s_, ns)
             else:
                 for s_, _ in fn.succ(b):
-                    if not fn.is_cleanup(s_):
-                        pending.setdefault(s_, []).append(st)
+                    arrive(s_, st)
 
     # -- queries ---------------------------------------------------------------------------------------------------
     def reachable(self, bb):
-        return bb in self.out_edges
+        return bb in self.after
+
+    def _hull(self, ivs):
+        ivs = list(ivs)
+        if not ivs or any(iv is None for iv in ivs):
+            return None
+        return (min(iv[0] for iv in ivs), max(iv[1] for iv in ivs))
 
     def at_terminator(self, bb, op):
-        """interval of operand `op` after the statements of bb (before its terminator); None = unknown/unreachable"""
-        st = self.out_edges.get(bb)
-        if st is None:
+        """interval of operand `op` after the statements of bb (hull over the partitions); None = unknown/unreachable"""
+        sts = self.after.get(bb)
+        if not sts:
             return None
-        # out_edges holds the state after the statements (a call's destination is assigned on a copy)
-        return self.eval(st, op)[0]
+        return self._hull(self.eval(st, op)[0] for st in sts.values())
 
     def field_at_terminator(self, bb, local, idx):
-        st = self.out_edges.get(bb)
-        if st is None:
+        sts = self.after.get(bb)
+        if not sts:
             return None
-        return st.vals.get((local, idx))
+        return self._hull(st.vals.get((local, idx)) for st in sts.values())
